@@ -112,7 +112,7 @@ def chunks(seq, size=None, dfmt="f", byte_order=None, padval=0.):
   """
   if size is None:
     size = chunks.size
-  chunk = array.array(dfmt, xrange(size))
+  chunk = array.array(dfmt, [0]) * size # xrange(size) would overflow small dfmt
   idx = 0
 
   # Arrays are always in native byte order: swap when another one was asked
